@@ -1,5 +1,7 @@
 """Source of truth for MANIFEST.json (run ./gen_manifest.py after editing)."""
 ENGINES = [
+    {"name": "chainspace (E2)", "path": "vlib/chainspace.py", "serves_properties": ["C03", "C16", "C06"], "kind_free_text": "all await/yield-from/asend/athrow/aclose/async-for chains up to length N, rebuilt and advanced to every suspension point"},
+    {"name": "c08 (target/layout product + stdlib corpus)", "path": "vlib/props/c08.py", "serves_properties": ["C08"], "kind_free_text": "exhaustive product of with layouts x targets; complete stdlib with-item corpus vs ast"},
     {"name": "progspace (E1)", "path": "vlib/progspace.py", "serves_properties": ["C01", "C02", "C06", "C08", "C20"], "kind_free_text": "grammar-complete enumeration of with/try/loop programs by AST size, rendered for 4 function kinds, decision-prefix DFS over all paths, step driver with shadow model"},
     {"name": "runner", "path": "vlib/runner.py", "serves_properties": [], "kind_free_text": "shards a bounded-exhaustive enumeration over worker processes of each present interpreter (3.9-3.12), merges counts, replays each violation in a fresh process, writes evidence"},
     {"name": "treespace/refmodel (C10)", "path": "vlib/props/c10.py", "serves_properties": ["C10"], "kind_free_text": "exhaustive item trees x hook tables, real extract() vs reference interpreter"},
@@ -7,6 +9,27 @@ ENGINES = [
 NOTES = "All checks are bounded-exhaustive explorations of the real implementation (no sampling); see DESIGN.md."
 NOT_APPLICABLE = {}
 CHECKS = {
+    "C03": {
+        "engine": "chainspace (E2)",
+        "category": "exploration",
+        "technique": "bounded-exhaustive exploration: all link-kind sequences up to length N x terminal x outer kind x every suspension point, oracle = frames an injected exception actually unwinds through",
+        "text": "Every await/yield-from chain within the bound is built, advanced to each of its suspension points, extracted, and then a Probe exception is thrown in: extract().frames must be exactly the frames the exception unwinds through (identity, order, line numbers), leaf the terminal non-frame iterator or None, root the target, exhausted targets frameless, with_contexts on/off identical. Exhaustive within N on 3.9-3.12.",
+        "note": "Oracle: sys.setprofile return events during the throw (frames) + traceback tb_lineno (lines); CPython <= 3.11 drops frames inward of athrow()/aclose() from the traceback, which is why the traceback alone is not used. Bounds: N<=3 quick, N<=4 thorough.",
+    },
+    "C08": {
+        "engine": "c08 (target/layout product + stdlib corpus)",
+        "category": "exploration",
+        "technique": "exhaustive product of with-statement layouts x item counts x target forms run on the implementation, plus complete enumeration of every with item in the interpreter's standard library, oracle = ast of the source",
+        "text": "Dynamic: every {with, async with} x layout x 1..N items x 34 target forms is compiled, suspended in the body and inspected: start_line must be the with keyword's line, varname None/ast-equal/(unsupported only) a local bound to the manager, supported forms rendered. Static: analyze_with_blocks on every code object of every stdlib module vs the module's ast. On 3.9-3.12.",
+        "note": "x[a:None] is accepted for x[a:], and the mangled spelling of a private name (_C__x for __x) is accepted, as the same expression. Dead-code with statements are counted, not judged.",
+    },
+    "C16": {
+        "engine": "chainspace (E2)",
+        "category": "exploration",
+        "technique": "bounded-exhaustive exploration: every frame of every (chain, suspension point) of the C03 space, running chains probed from inside, threads, greenlets, custom items; contract checks on origin and extract_outermost",
+        "text": "For every frame extracted anywhere in the space: origin is None or weak-referenceable with extract_outermost(origin).pyframe being that frame; frames inside a suspended generator-like carry it as origin; extract_outermost(x) equals extract(x).frames[0] field by field and raises (the recorded error) exactly when there are no frames.",
+        "note": "Ownership oracle: the harness keeps every generator-like object it creates and maps frames to owners by cr_frame/gi_frame/ag_frame identity.",
+    },
     "C01": {
         "engine": "progspace (E1)",
         "category": "exploration",
